@@ -84,9 +84,9 @@ def run(tier, seed):
     if not chk.build():
         return chk.finish({"evaluations": 0, "distinct_nontrivial": 0, "rule": "", "samples": []})
     quick = tier == "quick"
-    main_len = 6
+    main_len = 6 if quick else 7
     cov = {"evaluations": 0, "distinct_nontrivial": 0, "samples": [], "exhaustive": True, "token_kinds_seen": set(), "parts": {}}
-    parts = [("main", main_len)] + ([] if quick else [("sub", 7)])
+    parts = [("main", main_len)] + ([] if quick else [("sub", 8)])
     for alphabet, max_len in parts:
         shards = fan_out(_exhaustive_shard, alphabet=alphabet, max_len=max_len)
         ev = 0
@@ -123,7 +123,7 @@ def run(tier, seed):
     cov["rule"] = ("exhaustive: every string of length <= %d over the 23-symbol alphabet%s (each enumerated string is distinct; the "
                    "enumeration is complete, hence exhaustive=true for that part); plus corpus files, their CRLF and cut variants and "
                    "seeded random inputs (distinct = distinct inputs with >= 3 tokens). peek(n) stability is checked on a 1/4099 sample "
-                   "and on every long input." % (main_len, "" if quick else " and length <= 7 over the 14-symbol sub-alphabet"))
+                   "and on every long input." % (main_len, "" if quick else " and length <= 8 over the 14-symbol sub-alphabet"))
     return chk.finish(cov, assumptions=["indentation is read as the leading whitespace of the logical line (as delimited by NewLine tokens)",
                                          "the error token itself is exempt from the position rules",
                                          "peek(n) is exercised with n <= queue length + 1 only"])
